@@ -4,8 +4,8 @@
     on every run (tools/gosrc2v/fields.go → Gen/Fields.v); the classification
     tables are hand-written (theories/Conc/PoolFieldClass.v). *)
 From Coq Require Import String List Bool.
-From Webp Require Import Conc.PoolModel Conc.PoolFieldClass Conc.PoolProofs.
-From WebpGen Require Fields.
+From Webp Require Import Conc.PoolModel Conc.PoolFieldClass Conc.PoolSkel Conc.PoolProofs.
+From WebpGen Require Fields Skel Owner.
 Import ListNotations.
 Open Scope string_scope.
 Open Scope list_scope.
@@ -156,6 +156,22 @@ Theorem C11_dimension_gate_parallel_and_workers :
 Proof. exact (conj dimension_gate_parallelState (conj dimension_gate_parallelState_resliced dimension_gate_importUVWorker)). Qed.
 Print Assumptions C11_dimension_gate_parallel_and_workers.
 
+(** reuse-or-grow buffers: the regenerated list of guards
+    [if cap(x.f) >= n { x.f = x.f[:n] } else { x.f = make(T, n) }] (same length expression
+    in both branches) covers every pooled buffer outside the (mbW,mbH) gate *)
+Theorem C11_dimension_gate_resized :
+  F.lossy_Decoder_initFrame_resizes
+    = [("yuvT", "mbW"); ("mbInfo", "mbW + 1"); ("fInfo", "mbW"); ("mbData", "mbW"); ("slab", "slabSize")] /\
+  F.lossless_Encoder_Encode_resizes = [("argb", "pixelCount")] /\
+  F.lossless_Encoder_EncodeToWriter_resizes = [("argb", "pixelCount")] /\
+  F.lossless_Decoder_DecodeVP8L_resizes = [("pixels", "needed"); ("transformBuf", "numAlloc")] /\
+  F.lossless_Decoder_decodeImageStream_resizes = [("colorCacheBuf", "size")] /\
+  F.bitio_BoolWriter_Reset_resizes = [("buf", "0")] /\
+  F.root_argbBuf_encodeLossless_resizes = [("data", "pixelCount")] /\
+  F.root_argbBuf_encodeLosslessToWriter_resizes = [("data", "pixelCount")].
+Proof. exact dimension_gate_resized. Qed.
+Print Assumptions C11_dimension_gate_resized.
+
 Theorem C11_dimension_gate_lossy_Decoder :
   subset ["yuvT"; "mbInfo"; "fInfo"; "mbData"; "slab"; "intraT"; "yuvB"; "cacheY"; "cacheU"; "cacheV";
           "cacheYStride"; "cacheUVStride"]
@@ -238,6 +254,98 @@ Proof.
                       (history_independent_parallelState _ _ _ _ _ _ _ _ _ _))))))).
 Qed.
 Print Assumptions C11_history_independent_all_pooled_types.
+
+(** * write-before-read: part of the frame condition as a checked fact.
+    The translator abstracts every function of the package, per field, into a skeleton
+    of Fill / Touch events (Gen/Skel.v); the analysis [check] is a Coq function. *)
+
+(** soundness of the analysis, for every skeleton environment, fuel and skeleton: if it
+    does not answer [Bad], the first access of every admitted trace is a complete
+    overwrite (or there is no access) *)
+Theorem C11_wbr_analysis_sound :
+  forall (env : string -> sk) (fuel : nat) (s : sk),
+    check env fuel s <> Bad -> forall t, den env s t -> safe t.
+Proof. exact check_sound. Qed.
+Print Assumptions C11_wbr_analysis_sound.
+
+(** the Scratch fields the analysis decides on the regenerated skeletons of today's
+    source are exactly the listed ones (a read sneaking in before the fill, a dropped
+    fill loop, a new early access from another function all change the left side) *)
+Theorem C11_wbr_decided_fields :
+  wbr_computed "lossy.VP8Encoder." class_VP8Encoder = ["topNz"; "topNzDC"; "itTopY"; "itTopU"; "itTopV"; "itTopNZ"] /\
+  wbr_computed "lossy.Decoder." class_lossy_Decoder = ["cacheYOff"; "cacheUOff"; "cacheVOff"; "dcScratch"] /\
+  wbr_computed "lossy.parallelState." class_parallelState = ["topY"; "topU"; "topV"; "topModes"; "topNz"; "topNzDC"] /\
+  wbr_computed "lossy.TokenBuffer." class_TokenBuffer = [] /\
+  wbr_computed "lossless.Encoder." class_lossless_Encoder = [] /\
+  wbr_computed "lossless.Decoder." class_lossless_Decoder = [].
+Proof. exact wbr_decided_fields. Qed.
+Print Assumptions C11_wbr_decided_fields.
+
+(** for each of them, every access trace any entry point of the package admits is safe *)
+Theorem C11_wbr_field_safe :
+  forall prefix cls f, In f (wbr_computed prefix cls) ->
+  forall r t, In r (se_roots (skel_of prefix f)) ->
+              den (env_of (se_env (skel_of prefix f))) (Call r) t -> safe t.
+Proof. exact wbr_field_safe. Qed.
+Print Assumptions C11_wbr_field_safe.
+
+(** an object's life is a sequence of entry-point calls, each possibly cut short *)
+Theorem C11_wbr_lifetime_safe :
+  (forall ts, Forall safe ts -> safe (concat ts)) /\ (forall t1 t2, safe (t1 ++ t2) -> safe t1).
+Proof. exact (conj safe_concat safe_prefix). Qed.
+Print Assumptions C11_wbr_lifetime_safe.
+
+(** any execution whose accesses to the field follow a safe trace ends in a state (of
+    everything but the field) that does not depend on the field's initial content *)
+Theorem C11_safe_trace_content_independent :
+  forall (R V Sh : Type) (shape : V -> Sh) (next : R -> option ev)
+         (fillf : R -> Sh -> R * V) (touchf : R -> V -> R * V) (n : nat) (r : R) (v v' : V),
+    shape v = shape v' -> safe (mtrace R V Sh shape next fillf touchf n r v) ->
+    fst (mrun R V Sh shape next fillf touchf n r v) = fst (mrun R V Sh shape next fillf touchf n r v').
+Proof. exact safe_trace_content_independent. Qed.
+Print Assumptions C11_safe_trace_content_independent.
+
+(** content independence of the decided fields + the frame condition for objects that
+    agree on them = the frame condition *)
+Theorem C11_frame_from_decided :
+  forall (Args Out Val Shape : Type) (shape : Args -> Val -> Shape) (fields : list string)
+         (cls : list (string * fclass)) (run : Args -> (string -> Val) -> Out * (string -> Val)) (D : list string),
+    (forall f, In f D -> In f fields /\ class_is cls Scratch f) ->
+    (forall f, In f D -> indep_field Args Out Val Shape shape run f) ->
+    frame_condition_given Args Out Val Shape shape fields cls run D ->
+    frame_condition Args Out Val Shape shape fields cls run.
+Proof. exact frame_from_decided. Qed.
+Print Assumptions C11_frame_from_decided.
+
+(** history independence with the frame hypothesis weakened accordingly *)
+Theorem C11_history_independent_wbr :
+  forall (Args Out Val Shape : Type) (shape : Args -> Val -> Shape)
+         (init : Args -> string -> Val) (nilv zerov : Val)
+         (gate : Args -> (string -> Val) -> bool) (run : Args -> (string -> Val) -> Out * (string -> Val)),
+    hist_indep_wbr Args Out Val Shape shape init nilv gate run zerov
+                   F.lossy_VP8Encoder_fields class_VP8Encoder assigned_VP8Encoder released_VP8Encoder wbr_VP8Encoder /\
+    hist_indep_wbr Args Out Val Shape shape init nilv gate run zerov
+                   F.lossy_Decoder_fields class_lossy_Decoder assigned_lossy_Decoder released_lossy_Decoder wbr_lossy_Decoder /\
+    hist_indep_wbr Args Out Val Shape shape init nilv gate run zerov
+                   F.lossy_parallelState_fields class_parallelState assigned_parallelState
+                   (strongly_written F.lossy_parallelState_putParallelState_writes) wbr_parallelState.
+Proof.
+  intros. exact (conj (history_independent_wbr_VP8Encoder _ _ _ _ _ _ _ _ _ _)
+                (conj (history_independent_wbr_lossy_Decoder _ _ _ _ _ _ _ _ _ _)
+                      (history_independent_wbr_parallelState _ _ _ _ _ _ _ _ _ _))).
+Qed.
+Print Assumptions C11_history_independent_wbr.
+
+(** * returned values are fresh: over the regenerated list of every return site of the
+    functions behind the public API (and every module function contributing a returned
+    value), each reference-typed operand is nil, freshly allocated, produced by an
+    allocating function outside the module, or produced by a listed module function;
+    none is pooled storage, a parameter, or unclassified; and every API root is listed *)
+Theorem C11_returned_values_fresh :
+  returned_values_fresh_b WebpGen.Owner.owner_sites = true /\
+  forallb (fun r => existsb (fun q => String.eqb (fst q) r) WebpGen.Owner.owner_sites) api_return_roots = true.
+Proof. exact returned_values_fresh. Qed.
+Print Assumptions C11_returned_values_fresh.
 
 (** the hypotheses are satisfiable and each is needed: a two-field instance where the
     theorem applies, and the same instance with the reset line deleted, for which
